@@ -99,6 +99,9 @@ type Shell struct {
 	Insts    []*OpInst
 	Trace    []TraceEvent
 	Plan     func(o *OpInst)
+	// Scripts: every `bash -c` script the program started, in order (the
+	// library's own housekeeping - mkfifo, rm of a FIFO - included)
+	Scripts []string
 	barrier  map[int][]*G
 	barrierN map[int]int
 	bgroup   map[string][]*G
@@ -246,6 +249,7 @@ func (sh *Shell) Exec(script string) ([]byte, error) { return sh.ExecMode(script
 func (sh *Shell) ExecMode(script string, waitChildren bool) ([]byte, error) {
 	s := sh.s
 	s.Pre("exec", 0, script)
+	sh.Scripts = append(sh.Scripts, script)
 	toks, err := tokenize(script)
 	if err != nil {
 		s.HarnessFail(err.Error())
